@@ -689,11 +689,18 @@ fn cmd_sched(line: &str) {
         }
         let b = tok.as_bytes();
         let mut why = "";
+        let mut granted = usize::MAX;
         if b[0] == b'w' {
             if sched::wait_quiescent(0, tmo) != sched::Q::Parked {
                 why = "handle owner not parked for the stray wake";
             } else if sched::stray_wake(tmo) < 1 {
                 why = "stray wake woke nobody";
+            } else {
+                // the woken owner leaves the kernel; wait until it shows up somewhere else
+                let t0 = sys::now_us();
+                while sched::state_of(0) == sched::Q::Parked && sys::now_us() - t0 < tmo {
+                    sys::sched_yield();
+                }
             }
         } else {
             let (party, id) = if b[0] == b'h' {
@@ -716,11 +723,16 @@ fn cmd_sched(line: &str) {
                     }
                 }
                 sched::grant(party);
+                granted = party;
             }
         }
         // let everything settle: exactly one party ran, wait until all are quiescent again
         let mut st = [0u64; sched::NPARTY];
         if why.is_empty() {
+            // the party that was granted the turn first (its step may wake or create others)
+            if granted < sched::NPARTY && expected[granted] {
+                let _ = sched::wait_quiescent(granted, tmo);
+            }
             for (j, exp) in expected.iter().enumerate() {
                 if *exp {
                     let q = sched::wait_quiescent(j, tmo);
